@@ -173,6 +173,8 @@ def gen_case(rng, tier, g):
             'failed_write_before': [i for i, h in enumerate(hist)
                                     if h[0] == 'TO' and rng.random() < 0.2],
             'failed_at': rng.randint(0, 6),
+            'srcobj': rng.choice([None, None, 'object', 'bgz'])
+            if target.startswith('path') else None,
             'frag': [rng.choice([1, 2, 3, 5, 7, 64, 8192])
                      for _ in range(rng.randint(1, 5))]
             if rng.random() < 0.7 else None}
@@ -194,7 +196,7 @@ class _Inapplicable(Exception):
 class Target(object):
     """One named target of a given kind, plus a scratch twin."""
 
-    def __init__(self, e, kind, fmt, store, sbpath, name):
+    def __init__(self, e, kind, fmt, store, sbpath, name, srcobj=None):
         self.e = e
         self.kind = kind
         self.store = store
@@ -213,8 +215,16 @@ class Target(object):
             self.w = self.mem
         else:
             suffix = {'path': '', 'path-gz': '.gz', 'path-bz2': '.bz2'}[kind]
+            if srcobj == 'bgz' and kind == 'path-gz':
+                suffix = '.bgz'         # the other registered gzip extension
             self.path = os.path.join(sbpath, self.name + suffix)
             self.w = self.path
+            if srcobj == 'object':
+                # an explicit source object instead of a file name resolved
+                # by its extension
+                import petl.io.sources as psrc
+                self.w = {'path': psrc.FileSource, 'path-gz': psrc.GzipSource,
+                          'path-bz2': psrc.BZ2Source}[kind](self.path)
 
     def reader(self):
         if self.kind == 'memory':
@@ -365,7 +375,8 @@ def run_case(case):
     try:
         with devices.TempSandbox() as sb:
             store = SimStore(frag=case.get('frag'))
-            tgt = Target(e, kind, fmt, store, sb.path, 't')
+            tgt = Target(e, kind, fmt, store, sb.path, 't',
+                         srcobj=case.get('srcobj'))
             kept = []
             long_view = [None]  # one reader view kept across the history
             records = []        # content model: rows in file order
@@ -550,7 +561,8 @@ def run_case(case):
                         cat = [list(r) for r in t0]
                         for t, _ in since_to[1:]:
                             cat += [list(r) for r in t[1:]]
-                        twin = Target(e, kind, fmt, store, sb.path, 'twin')
+                        twin = Target(e, kind, fmt, store, sb.path, 'twin',
+                                      srcobj=case.get('srcobj'))
                         first_wh = case['history'][
                             opi - (len(since_to) - 1)][2]
                         try:
@@ -581,6 +593,8 @@ def run_case(case):
         probes['bom-encoding'] = 1
     if len(case['history']) > 1:
         probes['multi-op-history'] = 1
+    if case.get('srcobj'):
+        probes['target-as:' + case['srcobj']] = 1
     return outcome('ok', digest=log.hexdigest(), probes=probes,
                    steps=len(case['history']), nontrivial=nontrivial,
                    states=['%s:%s:%s:%s' % (fmt, kind, args.get('encoding'),
